@@ -158,10 +158,16 @@ pub fn build(case: &Case, ctx: &mut CaseCtx) -> Built {
         Listing::Cw20OwnerAllowances | Listing::Cw20SpenderAllowances => {
             let by_owner = case.listing == Listing::Cw20OwnerAllowances;
             // everybody holds tokens so that allowances can be drawn on
-            let mut initial = vec![
-                Cw20Coin { address: pivot.to_string(), amount: Uint128::new(1_000_000) },
-                Cw20Coin { address: other.to_string(), amount: Uint128::new(1_000_000) },
-            ];
+            // in a quarter of the cases the pivot never holds any tokens (granting needs no balance;
+            // receiving allowances neither): the listings must not depend on an account record
+            let unfunded_pivot = case.variant % 4 == 3;
+            if unfunded_pivot {
+                ctx.count("cw20_allowances_unfunded_pivot");
+            }
+            let mut initial = vec![Cw20Coin { address: other.to_string(), amount: Uint128::new(1_000_000) }];
+            if !unfunded_pivot {
+                initial.push(Cw20Coin { address: pivot.to_string(), amount: Uint128::new(1_000_000) });
+            }
             for c in &cands {
                 initial.push(Cw20Coin { address: c.to_string(), amount: Uint128::new(1000) });
             }
@@ -212,7 +218,7 @@ pub fn build(case: &Case, ctx: &mut CaseCtx) -> Built {
                             "partial decrease",
                         );
                     }
-                    if s % 7 == 0 {
+                    if s % 7 == 0 && !(unfunded_pivot && by_owner) {
                         must(
                             exec(&mut d, spender, Cw20ExecuteMsg::TransferFrom { owner: owner.to_string(), recipient: bank.to_string(), amount: Uint128::new(2) }),
                             "partial draw",
